@@ -1,5 +1,5 @@
 (* Proofs/C16_Validate.v — the translated validator decides exactly spec_accepts    *)
-(* and never raises TypeError; accepted linear grids materialise as specified.      *)
+(* and never raises TypeError.                                                       *)
 From Coq Require Import Lqa Setoid.
 From LCM Require Import Base.Prelude Base.PyVal Gen.GridValidate Spec.Interp Spec.GridRules Proofs.QLemmas.
 Local Open Scope Q_scope.
@@ -15,16 +15,37 @@ Proof. apply iff_reflect. symmetry. apply Qleb_le. Qed.
 Lemma float_max_pos : 0 < float_max_Q.
 Proof. unfold float_max_Q. change 0 with (inject_Z 0). rewrite <- Zlt_Qlt. reflexivity. Qed.
 
-Ltac qcases :=
-  repeat match goal with
-         | |- context [Qltb ?x ?y] => destruct (Qltb_spec x y)
-         | |- context [Qeqb ?x ?y] => destruct (Qeqb_spec x y)
-         | |- context [Qleb ?x ?y] => destruct (Qleb_spec x y)
-         | |- context [Z.leb ?x ?y] => destruct (Z.leb_spec x y)
-         end.
+Lemma iif_num v :
+  py_isinstance_int_float v = match py_num v with Some _ => true | None => false end.
+Proof. destruct v as [z|b|f| | |]; reflexivity. Qed.
 
 Lemma inject_Z_lt1 z : (inject_Z z < 1) <-> (z < 1)%Z.
 Proof. change 1 with (inject_Z 1). now rewrite <- Zlt_Qlt. Qed.
+
+(* one comparison at a time, pruning contradictory branches as soon as they appear *)
+Ltac qcase1 :=
+  match goal with
+  | |- context [Qltb ?x ?y] => destruct (Qltb_spec x y)
+  | |- context [Qeqb ?x ?y] => destruct (Qeqb_spec x y)
+  | |- context [Qleb ?x ?y] => destruct (Qleb_spec x y)
+  | |- context [Z.leb ?x ?y] => destruct (Z.leb_spec x y)
+  end.
+Ltac zq :=
+  repeat match goal with
+         | H : inject_Z _ < inject_Z _ |- _ => rewrite <- Zlt_Qlt in H
+         | H : ~ inject_Z _ < inject_Z _ |- _ => rewrite <- Zlt_Qlt in H
+         | H : inject_Z _ <= inject_Z _ |- _ => rewrite <- Zle_Qle in H
+         | H : ~ inject_Z _ <= inject_Z _ |- _ => rewrite <- Zle_Qle in H
+         | H : inject_Z _ == inject_Z _ |- _ => apply inject_Z_injective in H
+         | H : ~ inject_Z _ == inject_Z _ |- _ => rewrite inject_Z_injective in H
+         | H : inject_Z _ < 1 |- _ => apply inject_Z_lt1 in H
+         | H : ~ inject_Z _ < 1 |- _ => rewrite inject_Z_lt1 in H
+         | H : inject_Z _ == 1 |- _ => change 1 with (inject_Z 1) in H; apply inject_Z_injective in H
+         | H : ~ inject_Z _ == 1 |- _ => change 1 with (inject_Z 1) in H; rewrite inject_Z_injective in H
+         end.
+Ltac finish := cbn -[Qltb Qeqb Qleb Z.leb inject_Z Qopp]; try reflexivity;
+               try (exfalso; zq; change (inject_Z 0) with 0 in *; change (inject_Z 1) with 1 in *; (lia || lra)).
+Ltac grind := finish; repeat (qcase1; finish).
 
 Theorem validate_is_spec start stop n_points positive_start :
   validate_continuous_grid start stop n_points positive_start
@@ -32,18 +53,34 @@ Theorem validate_is_spec start stop n_points positive_start :
 Proof.
   pose proof float_max_pos as Hfm.
   unfold validate_continuous_grid, spec_accepts, spec_finite, spec_int.
+  unfold py_le, py_lt, py_ge, py_gt, py_cmp. rewrite !iif_num.
   unfold py_float_max. fold float_max_Q.
   generalize dependent float_max_Q. intros fm Hfm.
-  destruct start as [z1|b1|[q1| | |]| | |]; destruct stop as [z2|b2|[q2| | |]| | |];
-    destruct n_points as [z3|b3|[q3| | |]| | |]; destruct positive_start;
-    try destruct b1; try destruct b2; try destruct b3;
-    cbn -[Qltb Qeqb Qleb Z.leb inject_Z Qopp]; unfold f_le, f_lt, f_eq;
-    cbn -[Qltb Qeqb Qleb Z.leb inject_Z Qopp];
-    qcases; cbn; try reflexivity; exfalso;
-    repeat match goal with
-           | H : inject_Z _ < 1 |- _ => apply inject_Z_lt1 in H
-           | H : ~ inject_Z _ < 1 |- _ => rewrite inject_Z_lt1 in H
-           | H : inject_Z _ == 1 |- _ => change 1 with (inject_Z 1) in H; apply inject_Z_injective in H
-           | H : ~ inject_Z _ == 1 |- _ => change 1 with (inject_Z 1) in H; rewrite inject_Z_injective in H
-           end; try lia; try lra.
+  generalize (py_num start) as ns. generalize (py_num stop) as nt. intros nt ns.
+  destruct n_points as [z3|b3|[q3| | |]| | |]; try destruct b3;
+  destruct ns as [[q1| | |]|]; destruct nt as [[q2| | |]|]; destruct positive_start;
+    unfold f_le, f_lt, f_eq; grind.
+Qed.
+
+Theorem accepted_inputs start stop n_points positive_start :
+  validate_continuous_grid start stop n_points positive_start = ROk true ->
+  exists a b k,
+    py_num start = Some (FFin a) /\ py_num stop = Some (FFin b) /\ spec_int n_points = Some k /\
+    - float_max_Q <= a /\ a <= float_max_Q /\ - float_max_Q <= b /\ b <= float_max_Q /\
+    a < b /\ (1 <= k)%Z /\ (positive_start = true -> 0 < a).
+Proof.
+  rewrite validate_is_spec. intros H. injection H as H.
+  unfold spec_accepts, spec_finite in H.
+  destruct (py_num start) as [[a| | |]|]; try discriminate.
+  destruct (Qleb (- float_max_Q) a) eqn:A1; [|discriminate].
+  destruct (Qleb a float_max_Q) eqn:A2; [|discriminate].
+  destruct (py_num stop) as [[b| | |]|]; try discriminate.
+  destruct (Qleb (- float_max_Q) b) eqn:B1; [|discriminate].
+  destruct (Qleb b float_max_Q) eqn:B2; [|discriminate].
+  destruct (spec_int n_points) as [k|]; [|discriminate].
+  cbn [andb] in H. apply andb_true_iff in H. destruct H as [H H3].
+  apply andb_true_iff in H. destruct H as [H1 H2].
+  exists a, b, k. apply Qleb_le in A1, A2, B1, B2. apply Qltb_lt in H1. apply Z.leb_le in H2.
+  repeat split; auto.
+  intros ->. simpl in H3. now apply Qltb_lt in H3.
 Qed.
